@@ -16,8 +16,11 @@ class C18(framework.PropertyCheck):
     assumptions = ["row delimiter is '\\n' and the cell delimiter ','; file I/O is exercised on the implementation side only"]
 
     def cases(self, rng, tier, n):
-        for _ in range(n):
-            yield {'cf': gen_trace.gen_csv(rng), 'nl': rng.random() < 0.5}
+        for k in range(n):
+            c = {'cf': gen_trace.gen_csv(rng), 'nl': rng.random() < 0.5}
+            if k % 5 == 4:
+                c['history'] = True      # another capture has been loaded before and unloaded again
+            yield c
         if tier == 'thorough':
             import itertools
             names = ['a', 'b c', 'd[3]', 'e[1:0]']
@@ -41,6 +44,8 @@ class C18(framework.PropertyCheck):
         den = gen_trace.denote_csv(cf)
         text = gen_trace.render_csv(cf) + ('\n' if case['nl'] else '')
         steps = [('loadcsv', 't0', text), ('eval', 'eorg', '(list SIGNALS MAX-INDEX INDEX)')]
+        if case.get('history'):
+            steps = [('loadcsv', 'zz', 'Time [s],other\n0.5,1\n0.75,0\n1.5,1\n'), steps[0], ('unload', 'zz'), steps[1]]
         q = '(list INDEX TS ' + ' '.join(f'(get {qs(n)})' for n in den['signals']) + ')'
         for _ in den['timestamps']:
             steps.append(('eval', 'eorg', q))
@@ -51,6 +56,10 @@ class C18(framework.PropertyCheck):
         den = gen_trace.denote_csv(case['cf'])
         names = den['signals']
         n = len(den['timestamps'])
+        if case.get('history'):
+            if len(iobs) < 3 or iobs[0] != ('ok',) or iobs[2] != ('ok',):
+                return {'what': 'loading / unloading the other capture failed', 'obs': iobs[:3]}
+            iobs = iobs[1:2] + iobs[3:]
         if not iobs or iobs[0] != ('ok',):
             return {'what': 'CSV rejected', 'obs': iobs[:1]}
         want0 = ('L', True, (('L', False, tuple(('S', s) for s in names)), ('I', n - 1), ('I', 0)))
